@@ -350,7 +350,8 @@ def sendReadIndexResp (req : Message) (readIndex : Nat) : M Unit := do
 
 def sendMsgReadIndexResponse (m : Message) : M Unit := do
   let r ← get
-  if r.trk.isSingleton then
+  if r.trk.cfg.voters.contains r.cfg.id && r.trk.isSingleton then
+    -- sole voter and that voter is this node
     sendReadIndexResp m r.log.committed
   else if r.readOnly.option == 0 then
     let ro := r.readOnly.addRequest r.log.committed m
